@@ -81,8 +81,8 @@ mod verif_c05_twins {
                 "C03.VirtAddr_forward_checked_u64.valid: the result is canonical"
             );
             assert!(
-                pos(x) as u128 == want,
-                "C05.VirtAddr_forward_checked_u64.lands_n_later_or_none: lands exactly count positions later"
+                canonical(x) && pos(x) as u128 == want,
+                "C05.VirtAddr_forward_checked_u64.lands_n_later_or_none: a canonical address exactly count positions later"
             );
         }
     }
@@ -206,8 +206,8 @@ mod verif_c05_twins {
                 "C03.Page_forward_checked_impl.valid: the result is a canonical, size-aligned start address"
             );
             assert!(
-                pos(x) as u128 == want,
-                "C05.Page_forward_checked_impl.whole_pages_or_none: lands exactly count whole pages later"
+                canonical(x) && x % size == 0 && pos(x) as u128 == want,
+                "C05.Page_forward_checked_impl.whole_pages_or_none: a well-formed page exactly count whole pages later"
             );
         }
     }
